@@ -141,7 +141,7 @@ Definition table_ok (c : cfg) : bool :=
   && (c_load_atomic_engine c || c_apply_checks_stopped c)
   && c_pool_stop_before_unload c && c_sched_checks_loaded c && c_stream_checks_flag c
   && pool_blocks_ok c
-  && c_book_atomic c
+  && c_book_atomic c && c_close_checks_destroyed c
   && forallb (fun s => negb (meth_eqb (s_meth s) MUpdate) || String.eqb (s_root s) "Handle") (c_sites c).
 
 Section Proofs.
@@ -158,13 +158,13 @@ Lemma tab_parts :
   /\ (c_load_atomic_pool c || c_pool_rechecks c) = true
   /\ (c_load_atomic_engine c || c_apply_checks_stopped c) = true.
 Proof.
-  pose proof Htab as H. unfold table_ok in H. do 6 (apply andb_prop in H; destruct H as [H _]).
+  pose proof Htab as H. unfold table_ok in H. do 7 (apply andb_prop in H; destruct H as [H _]).
   repeat (apply andb_prop in H; destruct H as [H ?]). tauto.
 Qed.
 
 Lemma tab_stop : c_pool_stop_before_unload c = true /\ c_sched_checks_loaded c = true /\ c_stream_checks_flag c = true.
 Proof.
-  pose proof Htab as H. unfold table_ok in H. do 3 (apply andb_prop in H; destruct H as [H _]).
+  pose proof Htab as H. unfold table_ok in H. do 4 (apply andb_prop in H; destruct H as [H _]).
   do 2 (apply andb_prop in H; destruct H as [H ?]).
   apply andb_prop in H. tauto.
 Qed.
@@ -173,12 +173,18 @@ Lemma tab_book :
   c_book_atomic c = true
   /\ forallb (fun s => negb (meth_eqb (s_meth s) MUpdate) || String.eqb (s_root s) "Handle") (c_sites c) = true.
 Proof.
-  pose proof Htab as H. unfold table_ok in H. do 2 (apply andb_prop in H; destruct H as [H ?]). tauto.
+  pose proof Htab as H. unfold table_ok in H. apply andb_prop in H. destruct H as [H ?].
+  do 2 (apply andb_prop in H; destruct H as [H ?]). tauto.
+Qed.
+
+Lemma tab_closechk : c_close_checks_destroyed c = true.
+Proof.
+  pose proof Htab as H. unfold table_ok in H. do 2 (apply andb_prop in H; destruct H as [H ?]). auto.
 Qed.
 
 Lemma tab_blocks a b : admit_conflict c a b = job_conflict a b.
 Proof.
-  pose proof Htab as H. unfold table_ok in H. do 2 (apply andb_prop in H; destruct H as [H _]).
+  pose proof Htab as H. unfold table_ok in H. do 3 (apply andb_prop in H; destruct H as [H _]).
   apply andb_prop in H. destruct H as [_ H].
   unfold pool_blocks_ok in H. rewrite forallb_forall in H.
   assert (Ha : In a all_jobkinds) by (destruct a; simpl; auto).
@@ -637,7 +643,7 @@ Qed.
 Lemma inv_closestart st st' : inv c st -> step c st ACloseStart = Some st' -> inv c st'.
 Proof.
   intros H Hs. simpl in Hs. destruct (close_ready st && is_idle (getT st 1)) eqn:G; [|discriminate].
-  apply andb_prop in G; destruct G as [G1 G2].
+  apply andb_prop in G; destruct G as [G1 G2]. rewrite tab_closechk in Hs. simpl in Hs.
   destruct (destroyed st) eqn:Ed; inversion Hs; subst st'; clear Hs.
   - pose proof H as Hinv. inv_destruct H.
     apply (inv_nothr st _ Hinv); simpl; auto.
@@ -1297,7 +1303,7 @@ Proof.
     destruct (nth_error (reader_sites c) n); [|discriminate]. inversion Hs; subst.
     apply Hsame; try reflexivity. unfold getT at 1. simpl. apply Hn0. rewrite Er. discriminate.
   - destruct (close_ready st && is_idle (getT st 1)); [|discriminate].
-    destruct (destroyed st); inversion Hs; subst; apply Hsame; try reflexivity.
+    destruct (c_close_checks_destroyed c && destroyed st); inversion Hs; subst; apply Hsame; try reflexivity.
     unfold getT at 1. simpl. apply (Hn0 1). discriminate.
   - destruct (thr_step c st i) as [st1|] eqn:E; [|discriminate]. inversion Hs; subst. eapply ginv_thr; eauto.
 Qed.
@@ -1617,7 +1623,7 @@ Definition cfg_before_fix (k : kind) (nsnap : nat) : cfg :=
   mkCfg (sites_of_table table_before_fix) k nsnap engine_load_inside_foreach pool_load_inside_foreach
         apply_checks_stopped pool_rechecks_before_schedule pool_stops_workers_before_unload
         sched_checks_node_loaded can_stream_checks_streaming
-        apply_bookkeeping_in_update_section pool_blocks.
+        close_worker_checks_destroyed apply_bookkeeping_in_update_section pool_blocks.
 
 (* NodeHost stops the shard, the close worker is inside the user Close, a client
    holding a completed ReadIndex reads locally: Lookup runs beside (and after the
@@ -1644,7 +1650,7 @@ Definition cfg_unload_first (k : kind) (nsnap : nat) : cfg :=
   mkCfg gen_sites k nsnap engine_load_inside_foreach pool_load_inside_foreach
         apply_checks_stopped pool_rechecks_before_schedule false
         sched_checks_node_loaded can_stream_checks_streaming
-        apply_bookkeeping_in_update_section pool_blocks.
+        close_worker_checks_destroyed apply_bookkeeping_in_update_section pool_blocks.
 
 (* a save job is inside SaveSnapshot (resp. a recover job inside RecoverFromSnapshot),
    NodeHost.Close stops the node and the pool drops the busy reference without
@@ -1667,7 +1673,7 @@ Proof. vm_compute. repeat split; reflexivity. Qed.
 Definition cfg_flip (k : kind) (nsnap : nat) (sched_check stream_flag : bool) : cfg :=
   mkCfg gen_sites k nsnap engine_load_inside_foreach pool_load_inside_foreach
         apply_checks_stopped pool_rechecks_before_schedule pool_stops_workers_before_unload
-        sched_check stream_flag apply_bookkeeping_in_update_section pool_blocks.
+        sched_check stream_flag close_worker_checks_destroyed apply_bookkeeping_in_update_section pool_blocks.
 
 (* a save request waits in the pool, the replica is stopped and closed, then a worker
    becomes free: without the test of scheduleWorker the job runs on the closed state machine *)
@@ -1698,7 +1704,8 @@ Proof. vm_compute. repeat split; reflexivity. Qed.
 Definition cfg_save_beside_stream (k : kind) (nsnap : nat) : cfg :=
   mkCfg gen_sites k nsnap engine_load_inside_foreach pool_load_inside_foreach
         apply_checks_stopped pool_rechecks_before_schedule pool_stops_workers_before_unload
-        sched_checks_node_loaded can_stream_checks_streaming apply_bookkeeping_in_update_section
+        sched_checks_node_loaded can_stream_checks_streaming close_worker_checks_destroyed
+        apply_bookkeeping_in_update_section
         [("Recover", ["saving"; "recovering"; "streaming"]); ("Save", ["saving"; "recovering"]);
          ("Stream", ["saving"; "recovering"])]%string.
 
@@ -1728,7 +1735,7 @@ Qed.
 Definition cfg_book_late (k : kind) (nsnap : nat) : cfg :=
   mkCfg gen_sites k nsnap engine_load_inside_foreach pool_load_inside_foreach
         apply_checks_stopped pool_rechecks_before_schedule pool_stops_workers_before_unload
-        sched_checks_node_loaded can_stream_checks_streaming false pool_blocks.
+        sched_checks_node_loaded can_stream_checks_streaming close_worker_checks_destroyed false pool_blocks.
 
 (* the apply worker finished Update and released the mutex, the bookkeeping is still to come;
    a save job takes its image now *)
@@ -1741,4 +1748,21 @@ Theorem bookkeeping_section_needed_proved :
   /\ calls (run (cfg_book_late Conc 1) (init 4) late_book_schedule) = [(2%nat, MPrepare)]
   /\ snap_bad (run (gen_cfg Conc 1) (init 4) late_book_schedule) = false.
 Proof. vm_compute. repeat split; reflexivity. Qed.
+
+(* ---------- the close worker's destroyed test ---------- *)
+Definition cfg_close_twice (k : kind) (nsnap : nat) : cfg :=
+  mkCfg gen_sites k nsnap engine_load_inside_foreach pool_load_inside_foreach
+        apply_checks_stopped pool_rechecks_before_schedule pool_stops_workers_before_unload
+        sched_checks_node_loaded can_stream_checks_streaming false
+        apply_bookkeeping_in_update_section pool_blocks.
+
+(* a worker saw the node before StopShard and counts itself in afterwards: the counter
+   reaches zero twice and the node is handed to the close pool twice *)
+Definition late_load_schedule : list action :=
+  [AApLoad; AStop; ACloseStart] ++ repeat (AThr 1) 7 ++ [AApIncr; AApOffload; ACloseStart; AThr 1; AThr 1; AThr 1; AThr 1].
+
+Theorem close_destroyed_test_needed_proved :
+  nclose (run (cfg_close_twice Plain 1) (init 4) late_load_schedule) = 2
+  /\ nclose (run (gen_cfg Plain 1) (init 4) late_load_schedule) = 1.
+Proof. vm_compute. split; reflexivity. Qed.
 
